@@ -44,7 +44,7 @@ def enc_script(s):
     return ",".join(["1" if s.get("always") else "0", nl(s.get("ifcreate", [])),
                      "+".join(nl(c) for c in s.get("ifchange", [])) if s.get("ifchange") else "-",
                      "-" if s.get("failIfOdd") is None else str(s["failIfOdd"]), nl(s.get("reads", [])),
-                     str(s.get("tag", 0)), str(s.get("outMode", 1)), str(s.get("stamp", 0)), str(s.get("exit", 0))])
+                     str(s.get("tag", 0)), str(s.get("outMode", 1)), str(s.get("stamp", 0)), str(s.get("exit", 0)), nl(s.get("cond", []))])
 
 
 def enc_op(o):
@@ -55,6 +55,10 @@ def enc_op(o):
         return "r.%d" % o[1]
     if k == "m":
         return "m.%d" % o[1]
+    if k == "h":
+        return "h.%d" % o[1]
+    if k == "u":
+        return "u.%d" % o[1]
     if k == "p":
         return "p.%d.%s" % (2 * o[1] + 3, enc_script(o[2]))
     if k == "crash":
@@ -74,6 +78,8 @@ def render_script(case, v, s):
         L.append("redo-always")
     if s.get("ifcreate"):
         L.append("redo-ifcreate " + " ".join(N[f] for f in s["ifcreate"]))
+    for f in s.get("cond", []):
+        L.append("if [ -e %s ]; then redo-ifchange %s; else redo-ifcreate %s; fi" % (N[f], N[f], N[f]))
     crash = 'if [ "$VERIF_CRASH_AT" = "$1:%d" ]; then kill -9 0; sleep 5; fi'
     for kk, c in enumerate(s.get("ifchange", [])):
         L.append(crash % kk)
@@ -201,6 +207,12 @@ def run_real(case, keep=False, extra_env=None):
                     os.utime(pth, ns=(old.st_atime_ns, old.st_mtime_ns))
             elif k == "r":
                 pr.rm(case.names[o[1]])
+            elif k == "h":
+                if os.path.exists(pr.path(case.names[o[1]])):
+                    os.rename(pr.path(case.names[o[1]]), pr.path(".away-" + case.names[o[1]]))
+            elif k == "u":
+                if os.path.exists(pr.path(".away-" + case.names[o[1]])) and not os.path.exists(pr.path(case.names[o[1]])):
+                    os.rename(pr.path(".away-" + case.names[o[1]]), pr.path(case.names[o[1]]))
             elif k == "m":
                 p = pr.path(case.names[o[1]])
                 if os.path.exists(p):
@@ -325,7 +337,11 @@ def gen_case(rng, size=None, features=None):
         if rng.random() < feats.get("always", 0.15):
             s["always"] = True
         if watch is not None and rng.random() < 0.4:
-            s["ifcreate"] = [watch]
+            if rng.random() < 0.5:
+                s["ifcreate"] = [watch]
+            else:
+                s["cond"] = [watch]
+                s["reads"] = s["reads"] + [watch]
         if rng.random() < feats.get("fail", 0.2) and srcs:
             fl = rng.choice(lower if t is None else srcs)
             s["failIfOdd"] = fl
@@ -392,7 +408,8 @@ def gen_case(rng, size=None, features=None):
         elif r < 0.84:
             ops.append(("r", rng.choice(list(spec.values()) + ([dx, dd] if use_default else []))))
         elif r < 0.87 and watch is not None:
-            ops.append(("w", watch, 0) if rng.random() < 0.7 else ("r", watch))
+            q = rng.random()
+            ops.append(("w", watch, 0) if q < 0.45 else ("r", watch) if q < 0.6 else ("h", watch) if q < 0.8 else ("u", watch))
         elif r < 0.90:
             ops.append(("m", rng.choice(tgts + srcs)))
         elif r < 0.94:
